@@ -924,7 +924,25 @@ func (t *tr) havocModifies(con *Contract, sc *specCtx, pre Env, pos token.Pos) {
 		for _, l := range t.modLocs(con.clauses("preserves"), sc) {
 			keep[l.heap] = true
 		}
+		// `flag keeps_own k1,k2` on the unit: these unknown-frame callees cannot reach the fields of the unit's own
+		// receiver type (an unexported type of a package the callee does not import) — listed as an assumption
+		ownPrefix := ""
+		if t.u.Contract != nil && t.u.Contract.Flags["keeps_own"] != "" && t.u.Sig != nil && t.u.Sig.Recv() != nil {
+			for _, k := range strings.Split(t.u.Contract.Flags["keeps_own"], ",") {
+				if strings.TrimSpace(k) == con.Key {
+					rt := t.u.Sig.Recv().Type()
+					if p, ok := rt.Underlying().(*types.Pointer); ok {
+						rt = p.Elem()
+					}
+					ownPrefix = "H$" + typeKey(rt) + "."
+					t.V.note("flag keeps_own on " + t.u.Key + ": " + con.Key + " assumed not to modify the fields of " + typeKey(rt))
+				}
+			}
+		}
 		for _, v := range t.allVars {
+			if ownPrefix != "" && strings.HasPrefix(v.Name, ownPrefix) {
+				continue
+			}
 			if v.Heap && !keep[v] {
 				if strings.HasPrefix(v.Name, "G$") && v.T != nil && types.TypeString(v.T, nil) == "error" {
 					// package-level error variables (sentinels such as sliceio.EOF) are treated as constants
